@@ -232,6 +232,52 @@ def run(ctx):
         clean(out)
     for d in digs[1:]:
         allev.append({"ev": "eq", "what": "file/stdin x fasta/fastq", "o": dict(oligo), "a": digs[0], "b": d})
+    # what is behind -i need not be a regular file: a named pipe and /dev/stdin, for the commands that read their input once
+    import subprocess, threading
+    oc = dict(oligo, counts=True)
+    ref = None
+    for j, kind in enumerate(["file", "fifo", "devstdin"]):
+        out = ctx.path("cli_kind_%d" % j)
+        clean(out)
+        if kind == "file":
+            vlib.sh([cli] + args_of(oc, fa2, out, alt), timeout=600)
+        elif kind == "fifo":
+            ff = ctx.path("pipe_in.fa")
+            clean(ff)
+            os.mkfifo(ff)
+            feeder = subprocess.Popen(["sh", "-c", 'cat "$0" > "$1"', fa2, ff])
+            try:
+                vlib.sh([cli] + args_of(oc, ff, out, alt), timeout=120)
+            except Exception:
+                pass
+            feeder.kill()
+            feeder.wait()
+            os.remove(ff)
+        else:
+            with open(fa2, "rb") as fh:
+                vlib.sh([cli] + args_of(oc, "/dev/stdin", out, alt), timeout=120, stdin=fh)
+        d = digest(oc, out)
+        clean(out)
+        if kind == "file":
+            ref = d
+        else:
+            allev.append({"ev": "eq", "what": "input behind -i: regular file vs %s" % kind, "o": dict(oc), "a": ref, "b": d})
+    # what is behind -o need not be a regular file either: the stream writers (counts, CGR, minimiser listings) into a pipe
+    mins = {"cmd": "min", "m": 7, "wrel": "plus1", "preset": "s2m", "threads": 2}
+    streamers = [(dict(oligo, counts=True), fa2), ({"cmd": "cgr", "k": -1, "vecsize": -1, "counts": False, "threads": 2}, inp + ".clean.fa"),
+                 ({"cmd": "cgr", "k": 3, "vecsize": -1, "counts": True, "threads": 2}, fa2), (mins, fa2), (dict(mins, preset="m2s"), fa2)]
+    for j, (o, src) in enumerate(streamers):
+        out = ctx.path("cli_okind_%d" % j)
+        clean(out)
+        vlib.sh([cli] + args_of(o, src, out, alt), timeout=600)
+        ref = digest(o, out)
+        clean(out)
+        pr = subprocess.run([cli] + args_of(o, src, "/dev/stdout", alt), stdout=subprocess.PIPE, stderr=subprocess.PIPE, timeout=600)
+        with open(out, "wb") as f:
+            f.write(pr.stdout)
+        d = digest(o, out) if pr.returncode == 0 else "exit %d" % pr.returncode
+        clean(out)
+        allev.append({"ev": "eq", "what": "output behind -o: regular file vs /dev/stdout into a pipe", "o": o, "a": ref, "b": d})
     # the pip flavour's run_cli() (pip/src/lib.rs) is the same cli() behind a Python entry point: a handful of accepted and
     # refused vectors through it must behave like the binary
     import sys
